@@ -55,8 +55,10 @@ def sig_key(sig):
 def param_text(sig, annotated):
   ps = []
   ann = ': int' if annotated else ''
-  for n, d in sig['pos']:
+  for i, (n, d) in enumerate(sig['pos']):
     ps.append(n + ann + ('' if d is None else ' = %d' % d))
+    if i + 1 == sig.get('posonly', 0):
+      ps.append('/')
   if sig['varargs']:
     ps.append('*' + sig['varargs'] + ann)
   elif sig['kwonly']:
@@ -307,6 +309,7 @@ def features(case, with_call=True):
       named, var = supply(sig, named, var, ([], [(k, v)]), True, False)
   except Conflict:
     pass
+  if sig.get('posonly'): f.append('positional-only-parameters')
   if va and (any(k == va for k, _ in case['ctor'][1]) or any(k == va for k, _ in case['lates'])): f.append('varargs-bound-by-name')
   if case.get('post') == 2: f.append('json')
   if case.get('post') == 1: f.append('clone')
@@ -322,9 +325,24 @@ def classify_hit(case, got, exp, tag=''):
 # ---- generators ----------------------------------------------------------------------------------------
 VALS = [1, 2, 3, 10, 11, 12, 20, 21]
 
-def gen_supply(rng, sig, allow_va_kw, extra_names=('zz', 'yy'), bias=None):
+def gen_supply(rng, sig, allow_va_kw, extra_names=('zz', 'yy'), bias=None, tidy=False, taken=()):
+  """One way of supplying arguments. tidy: a supply that is acceptable on its own (no surplus, no unknown or repeated name,
+  nothing from [taken]); otherwise anything goes."""
   posn = [n for n, _ in sig['pos']]
-  names = posn + [n for n, _ in sig['kwonly']] + list(extra_names)
+  po = sig.get('posonly', 0)
+  if tidy:
+    free = 0
+    while free < len(posn) and posn[free] not in taken: free += 1
+    npos = rng.randint(0, free) if rng.random() < .8 else free
+    if sig['varargs'] and npos == len(posn) and sig['varargs'] not in taken and rng.random() < .4: npos += rng.randint(1, 2)
+    if npos < po and rng.random() < .7: npos = min(po, free)
+    pos = [rng.choice(VALS) for _ in range(npos)]
+    names = [n for n in posn[max(npos, po):] + [n for n, _ in sig['kwonly']] + (list(extra_names) if sig['varkw'] else []) if n not in taken]
+    kws = [(n, rng.choice(VALS)) for n in rng.sample(names, min(len(names), rng.choice([0, 1, 1, 2, 3])))]
+    if allow_va_kw and sig['varargs'] and npos <= len(posn) and sig['varargs'] not in taken and rng.random() < .15 and not any(k == sig['varargs'] for k, _ in kws):
+      kws.append((sig['varargs'], [rng.randint(1, 3) for _ in range(rng.randint(0, 2))]))
+    return pos, kws
+  names = posn[po:] + [n for n, _ in sig['kwonly']] + list(extra_names)
   npos = rng.choice([0, 0, 1, 1, 2, len(posn), len(posn) + 1, len(posn) + 2]) if bias != 'kw' else rng.choice([0, 0, 1])
   pos = [rng.choice(VALS) for _ in range(npos)]
   kws = []
@@ -338,7 +356,7 @@ def gen_supply(rng, sig, allow_va_kw, extra_names=('zz', 'yy'), bias=None):
   return pos, kws
 
 def gen_lates(rng, sig, n):
-  valid = [nn for nn, _ in sig['pos'] + sig['kwonly']] + (['zz', 'yy'] if sig['varkw'] else [])
+  valid = [nn for nn, _ in sig['pos'][sig.get('posonly', 0):] + sig['kwonly']] + (['zz', 'yy'] if sig['varkw'] else [])
   out = []
   for _ in range(n):
     if sig['varargs'] and rng.random() < .15:
@@ -349,29 +367,76 @@ def gen_lates(rng, sig, n):
       out.append((k, d if d is not None and rng.random() < .25 else rng.choice(VALS)))
   return out
 
+def names_supplied(sig, c):
+  posn = [n for n, _ in sig['pos']]
+  out = set(posn[:len(c[0])]) | set(k for k, _ in c[1])
+  if len(c[0]) > len(posn) and sig['varargs']: out.add(sig['varargs'])
+  return out
+
 def gen_functor_case(rng, sig, kind=None):
   c = dict(kind=kind or rng.choice(['functor', 'functor', 'symbolize']), sig=sig, annotated=False)
-  c['ctor'] = gen_supply(rng, sig, True)
+  c['ctor'] = gen_supply(rng, sig, True, tidy=rng.random() < .7)
   c['ov'] = rng.random() < .2; c['ie'] = rng.random() < .2
   c['lates'] = gen_lates(rng, sig, rng.choice([0, 0, 0, 1, 1, 2]))
   c['setattr'] = rng.random() < .3
-  c['call'] = gen_supply(rng, sig, False)
   c['ovo'] = rng.choice([None, None, None, True, False]); c['ieo'] = rng.choice([None, None, None, True, False])
+  ov = c['ov'] if c['ovo'] is None else c['ovo']
+  taken = () if ov or rng.random() < .15 else names_supplied(sig, c['ctor']) | set(k for k, _ in c['lates'])
+  c['call'] = gen_supply(rng, sig, False, tidy=rng.random() < .7, taken=taken)
+  if rng.random() < .5:
+    # complete the call: give every still missing required parameter a value
+    have = names_supplied(sig, c['ctor']) | set(k for k, _ in c['lates']) | names_supplied(sig, c['call'])
+    po = sig.get('posonly', 0)
+    posn = [n for n, _ in sig['pos']]
+    for i, (n, d) in enumerate(sig['pos'] + sig['kwonly']):
+      if d is None and n not in have and not (i < po):
+        c['call'][1].append((n, rng.choice(VALS)))
   c['post'] = rng.choice([0, 0, 0, 1, 2])
   c['deep'] = rng.random() < .5; c['json_str'] = rng.random() < .5
   return c
 
 def gen_class_case(rng, sig):
   c = dict(kind='class', sig=sig, annotated=False)
-  c['ctor'] = gen_supply(rng, sig, False)
+  c['ctor'] = gen_supply(rng, sig, False, tidy=rng.random() < .7)
   c['lates'] = gen_lates(rng, sig, rng.choice([0, 0, 1, 1, 2]))
   c['partial'] = rng.random() < .5
   return c
 
-def random_sig(rng, maxpos=3, maxkw=2):
+def grid_supplies(sig):
+  """A finite grid of ways to supply arguments: 0..n+1 positional values x at most one keyword among the parameters and one unknown name."""
+  posn = [n for n, _ in sig['pos']]
+  names = posn + [n for n, _ in sig['kwonly']] + ['zz']
+  out = []
+  for npos in range(len(posn) + 2):
+    pos = [1 + i for i in range(npos)]
+    out.append((pos, []))
+    for n in names:
+      out.append((pos, [(n, 30 + NAMES[n])]))
+  return out
+
+def grid_functor_cases(sig):
+  g = grid_supplies(sig)
+  for ctor in g:
+    for call in g:
+      for ov in (False, True):
+        for ie in (False, True):
+          yield dict(kind='functor', sig=sig, annotated=False, ctor=ctor, ov=ov, ie=ie, lates=[], setattr=False, call=call, ovo=None, ieo=None, post=0, deep=False, json_str=False)
+
+def grid_class_cases(sig):
+  names = [n for n, _ in sig['pos'] + sig['kwonly']]
+  for ctor in grid_supplies(sig):
+    for partial in (False, True):
+      for lates in ([], [(names[0], 7)] if names else []):
+        if lates == [] and names and False: continue
+        yield dict(kind='class', sig=sig, annotated=False, ctor=ctor, lates=lates, partial=partial)
+
+def random_sig(rng, maxpos=3, maxkw=2, posonly=False):
   npos = rng.randint(0, maxpos); nd = rng.randint(0, npos)
   nkw = rng.randint(0, maxkw)
-  return mk_sig(npos, tuple(i >= npos - nd for i in range(npos)), rng.random() < .5, nkw, tuple(rng.random() < .5 for _ in range(nkw)), rng.random() < .5)
+  sig = mk_sig(npos, tuple(i >= npos - nd for i in range(npos)), rng.random() < .5, nkw, tuple(rng.random() < .5 for _ in range(nkw)), rng.random() < .5)
+  if posonly and npos and rng.random() < .3:
+    sig['posonly'] = rng.randint(1, npos)      # positional-only parameters are only ever supplied by position (see design/C18.md)
+  return sig
 
 def case_tree(case, q):
   s = enc_sig(case['sig'])
@@ -539,11 +604,11 @@ def run(ctx):
   for sig in sigs2:
     orig, _ = build(sig, 'functor')
     for _ in range(ctx.scale(6, 60)):
-      c = gen_supply(rng, sig, rng.random() < .3, extra_names=('zz', 'yy', 'args', 'kw'))
+      c = gen_supply(rng, sig, rng.random() < .3, extra_names=('zz', 'yy', 'args', 'kw'), tidy=rng.random() < .5)
       pyb.append((sig, c))
   for _ in range(ctx.scale(300, 6000)):
     sig = random_sig(rng, 3, 2)
-    pyb.append((sig, gen_supply(rng, sig, True, extra_names=('zz', 'yy', 'args', 'kw'))))
+    pyb.append((sig, gen_supply(rng, sig, rng.random() < .5, extra_names=('zz', 'yy', 'args', 'kw'), tidy=rng.random() < .5)))
   n_bind_mismatch = 0
   for sig, c in pyb:
     orig, _ = build(sig, 'functor')
@@ -587,10 +652,24 @@ def run(ctx):
       fcases.append(gen_functor_case(rng, sig))
     for _ in range(max(2, per_sig // 3)):
       ccases.append(gen_class_case(rng, sig))
+  # the finite grid (every shape with <= 2 parameters of each kind x construction pattern x call pattern x flags): complete in the
+  # thorough tier, a seeded sample of it in the quick tier
+  grid_f = [c for sig in sigs2 for c in grid_functor_cases(sig)]
+  grid_c, seen_c = [], set()
+  for sig in sigs2:
+    for c in grid_class_cases(sig):
+      k = json.dumps(c, sort_keys=True)
+      if k not in seen_c:
+        seen_c.add(k); grid_c.append(c)
+  ctx.extra['grid'] = dict(functor_cases=len(grid_f), class_cases=len(grid_c), complete=ctx.thorough,
+                           what='168 signature shapes x (0..n+1 positional values x <=1 keyword) at construction x the same at the call x override_args x ignore_extra_args; classes: x partial x one rebind')
+  if not ctx.thorough:
+    grid_f = rng.sample(grid_f, 2500); grid_c = rng.sample(grid_c, 600)
+  fcases += grid_f; ccases += grid_c
   for _ in range(ctx.scale(1500, 40000)):
-    fcases.append(gen_functor_case(rng, random_sig(rng, 3, 2)))
+    fcases.append(gen_functor_case(rng, random_sig(rng, 3, 2, posonly=True)))
   for _ in range(ctx.scale(500, 12000)):
-    ccases.append(gen_class_case(rng, random_sig(rng, 3, 2)))
+    ccases.append(gen_class_case(rng, random_sig(rng, 3, 2, posonly=True)))
   for c in fcases:
     if rng.random() < .1: c['annotated'] = all(isinstance(v, int) for v in c['ctor'][0] + [v for _, v in c['ctor'][1] + c['lates'] + c['call'][1]] + c['call'][0]
                                                  if True) and not any(k == c['sig']['varargs'] for k, _ in c['ctor'][1] + c['lates'])
@@ -612,7 +691,7 @@ def run(ctx):
     ctx.hist('supply_routes', '%s%s%s' % ('C' if c['ctor'][0] or c['ctor'][1] else '-', 'L' if c['lates'] else '-', 'A' if c['call'][0] or c['call'][1] else '-'))
     ctx.hist('post_step', {0: 'none', 1: 'clone', 2: 'json'}[c['post']])
     ctx.hist('flags', 'ov=%s ie=%s' % (ov, ie))
-    ctx.hist('signature_shape', '%dpos%s %dkwonly%s' % (len(c['sig']['pos']), '+*' if c['sig']['varargs'] else '', len(c['sig']['kwonly']), '+**' if c['sig']['varkw'] else ''))
+    ctx.hist('signature_shape', '%dpos%s%s %dkwonly%s' % (len(c['sig']['pos']), '(%d/)' % c['sig']['posonly'] if c['sig'].get('posonly') else '', '+*' if c['sig']['varargs'] else '', len(c['sig']['kwonly']), '+**' if c['sig']['varkw'] else ''))
     oracle_functor(ctx, c, out, hitter(c))
     # the same case with run-time type checking switched off must behave the same (arguments are untyped)
     if not c.get('annotated') and not any(k == c['sig']['varargs'] and not isinstance(v, list) for k, v in c['ctor'][1] + c['lates']) and rng.random() < .35:
